@@ -10,6 +10,7 @@ import LyModel.Diff.Lemmas13List
   system-ordered list / leaf-list strictly and totally, consistently with instance equality (the subject of the sibling-order
   property, not of C13); with it `nlt`/`sameId` form a `KL.Ord` on the carrier `Dom S`.
 -/
+set_option linter.unusedSimpArgs false
 namespace LyModel.Diff
 open LyModel LyModel.Tree
 
